@@ -39,6 +39,11 @@ type concCall struct {
 	g, k  int
 	req   packet.Request
 	bytes []byte
+	// > 0: the call is made with a context that ends after that many ms and is addressed to the unit
+	// that never answers: the caller abandons it (while queued for the client, or mid-exchange)
+	ctxMs int
+	// pause of the caller before it makes this call (deterministic cases)
+	pauseMs int
 	// written by the calling goroutine, read by the judge: both under concRun's result mutex
 	status int // 0 reply received, 1 error returned, 2 the call panicked, 3 never returned
 	reply  []byte
@@ -58,8 +63,11 @@ const concReadTimeout = 500 * time.Millisecond
 
 // a request whose bytes are unique within the run: id goes into the transaction id (TCP) and
 // into the start address (all kinds)
-func concRequest(kind int, r *rng, id uint16) packet.Request {
+func concRequest(kind int, r *rng, id uint16, silent bool) packet.Request {
 	unit := uint8(1 + r.intn(4))
+	if silent {
+		unit = concSilentUnit
+	}
 	tcp := kind == 0
 	var req packet.Request
 	var err error
@@ -129,6 +137,25 @@ func concRequest(kind int, r *rng, id uint16) packet.Request {
 		panic("conc: request constructor failed: " + err.Error())
 	}
 	return req
+}
+
+// requests of one shape (read 2 holding registers of an answering unit): the reply to one parses as
+// the reply to another, the data (derived from the address) tells them apart
+func concRequestFC3(kind int, r *rng, id uint16) packet.Request {
+	unit := uint8(1 + r.intn(4))
+	if kind == 0 {
+		x, err := packet.NewReadHoldingRegistersRequestTCP(unit, id, 2)
+		if err != nil {
+			panic("conc: request constructor failed: " + err.Error())
+		}
+		x.TransactionID = id
+		return x
+	}
+	x, err := packet.NewReadHoldingRegistersRequestRTU(unit, id, 2)
+	if err != nil {
+		panic("conc: request constructor failed: " + err.Error())
+	}
+	return x
 }
 
 func nilIfErrC[T packet.Request](x T, err error) (packet.Request, error) {
@@ -225,10 +252,19 @@ func hooksAtomic(kind int, h *concHooks, okReqs map[string]int) bool {
 type concOpts struct {
 	n, m, nCloses int
 	nFailed       int           // failing Connect calls made while the client is connected and shared
-	latency       time.Duration // slow device
-	readTimeout   time.Duration
-	writeTimeout  time.Duration
-	hooked        bool
+	abandonPct    int           // share of calls that are abandoned by their caller (see concCall.ctxMs)
+	ctxLo, ctxHi  int           // ms: range of their context time-outs
+	blockRead     time.Duration // the transport's Read blocks this long when there is nothing to read
+	// abandoned calls are addressed to a unit that DOES answer (known finding KF-C14-1: the reply an
+	// abandoned call leaves behind is read by the next caller); all requests then have one shape
+	answering bool
+	// deterministic witness of KF-C14-1: one caller; call 0 has a context of 20 ms on a device that
+	// answers after 150 ms; the caller then pauses 400 ms (the late reply has arrived) and makes call 1
+	det          bool
+	latency      time.Duration // slow device
+	readTimeout  time.Duration
+	writeTimeout time.Duration
+	hooked       bool
 }
 
 type concResult struct {
@@ -244,8 +280,24 @@ func concRun(kind int, r *rng, o concOpts) concResult {
 	calls := make([][]*concCall, n)
 	for g := 0; g < n; g++ {
 		for k := 0; k < m; k++ {
-			req := concRequest(kind, r, uint16(1+g*m+k))
-			calls[g] = append(calls[g], &concCall{g: g, k: k, req: req, bytes: req.Bytes(), status: 3})
+			ctxMs, pauseMs := 0, 0
+			if o.abandonPct > 0 && r.intn(100) < o.abandonPct {
+				ctxMs = o.ctxLo + r.intn(o.ctxHi-o.ctxLo+1)
+			}
+			if o.det {
+				if k == 0 {
+					ctxMs = 20
+				} else {
+					pauseMs = 400
+				}
+			}
+			var req packet.Request
+			if o.answering {
+				req = concRequestFC3(kind, r, uint16(1+g*m+k))
+			} else {
+				req = concRequest(kind, r, uint16(1+g*m+k), ctxMs > 0)
+			}
+			calls[g] = append(calls[g], &concCall{g: g, k: k, req: req, bytes: req.Bytes(), status: 3, ctxMs: ctxMs, pauseMs: pauseMs})
 		}
 	}
 	thresholds := make([]int, nCloses)
@@ -270,10 +322,11 @@ func concRun(kind int, r *rng, o concOpts) concResult {
 	// without Close / Connect from the closers nothing may fail: every call has to be served
 	strict := nCloses == 0
 
+	var inDo int32 // Do calls in progress on the client
 	var cmu sync.Mutex
 	var conns []*memConn
 	newConn := func() *memConn {
-		c := &memConn{kind: kind, latency: o.latency}
+		c := &memConn{kind: kind, latency: o.latency, blockRead: o.blockRead, inDo: &inDo}
 		cmu.Lock()
 		conns = append(conns, c)
 		cmu.Unlock()
@@ -352,7 +405,17 @@ func concRun(kind int, r *rng, o concOpts) concResult {
 				rmu.Unlock()
 			}
 		}()
-		resp, err := client.Do(ctx, c.req)
+		cctx := ctx
+		if c.ctxMs > 0 {
+			var cancel context.CancelFunc
+			cctx, cancel = context.WithTimeout(ctx, time.Duration(c.ctxMs)*time.Millisecond)
+			defer cancel()
+		}
+		atomic.AddInt32(&inDo, 1)
+		resp, err := func() (packet.Response, error) {
+			defer atomic.AddInt32(&inDo, -1)
+			return client.Do(cctx, c.req)
+		}()
 		st, reply := 1, []byte(nil)
 		if err == nil && resp != nil {
 			st, reply = 0, resp.Bytes()
@@ -377,6 +440,9 @@ func concRun(kind int, r *rng, o concOpts) concResult {
 			for _, c := range mine {
 				if atomic.LoadInt32(&abort) != 0 {
 					return
+				}
+				if c.pauseMs > 0 {
+					time.Sleep(time.Duration(c.pauseMs) * time.Millisecond)
 				}
 				doOne(c)
 			}
@@ -448,12 +514,17 @@ func concRun(kind int, r *rng, o concOpts) concResult {
 	// ---- judge the record ----
 	want := map[string]int{}
 	own, allServed := true, true
+	abandonable := map[string]bool{}
 	var callVals []V
 	rmu.Lock()
 	for g := 0; g < n; g++ {
 		for _, c := range calls[g] {
-			if c.status != 0 {
-				allServed = false
+			abandon := 0
+			if c.ctxMs > 0 {
+				abandon = 1
+				abandonable[string(c.bytes)] = true
+			} else if c.status != 0 {
+				allServed = false // a call nobody abandoned was not served
 			}
 			if c.status == 0 {
 				want[string(c.bytes)]++
@@ -461,7 +532,7 @@ func concRun(kind int, r *rng, o concOpts) concResult {
 					own = false
 				}
 			}
-			callVals = append(callVals, L(I(c.g), I(c.k), B(c.bytes), I(c.status), B(c.reply)))
+			callVals = append(callVals, L(I(c.g), I(c.k), B(c.bytes), I(c.status), B(c.reply), I(abandon)))
 		}
 	}
 	rmu.Unlock()
@@ -471,11 +542,11 @@ func concRun(kind int, r *rng, o concOpts) concResult {
 	all := append([]*memConn{}, conns...)
 	cmu.Unlock()
 	for _, c := range all {
-		log, overlaps, midClose, closed := c.snapshot()
+		log, overlaps, midClose, outsideDo, closed := c.snapshot()
 		logVals = append(logVals, B(log))
-		connVals = append(connVals, L(I(overlaps), I(midClose), Bool(closed)))
+		connVals = append(connVals, L(I(overlaps), I(midClose), Bool(closed), I(outsideDo)))
 		lastClosed = closed
-		if overlaps != 0 || midClose != 0 {
+		if overlaps != 0 || midClose != 0 || outsideDo != 0 {
 			serialised = false
 		}
 		w := log
@@ -489,8 +560,10 @@ func concRun(kind int, r *rng, o concOpts) concResult {
 			w = w[k:]
 		}
 	}
-	for _, v := range want {
-		if v != 0 {
+	for k, v := range want {
+		// every served request is on the wire exactly once; an abandoned request may be (its caller
+		// gave up after writing it) or may not be (gave up before); nothing else is
+		if v != 0 && !(v == -1 && abandonable[k]) {
 			whole = false
 		}
 	}
@@ -529,7 +602,7 @@ func concRun(kind int, r *rng, o concOpts) concResult {
 	nf, nfNoErr := int(atomic.LoadInt32(&failedDone)), int(atomic.LoadInt32(&failedNoErr))
 	connectAtomic := lastClosed && nfNoErr == 0 && (!strict || allServed)
 	args := L(I(kind), L(logVals...), L(callVals...), L(connVals...), I(np),
-		L(I(int(o.latency/time.Millisecond)), I(hk)), L(traceVals...), L(Bool(strict), I(nf), I(nfNoErr)))
+		L(I(int(o.latency/time.Millisecond)), I(hk)), L(traceVals...), L(Bool(strict), I(nf), I(nfNoErr), Bool(o.answering)))
 	if hang {
 		return concResult{name, args, vErr(I(7)), true}
 	}
@@ -545,9 +618,9 @@ func concEmit(res concResult) {
 
 func streamConc(seed uint64, thorough bool) {
 	r := newRng(seed ^ 0xC14C14)
-	runs, serialRuns, slowRuns, failRuns := 80, 6, 6, 16
+	runs, serialRuns, slowRuns, failRuns, detRuns := 80, 6, 6, 16, 9
 	if thorough {
-		runs, serialRuns, slowRuns, failRuns = 600, 40, 40, 120
+		runs, serialRuns, slowRuns, failRuns, detRuns = 600, 40, 40, 120, 30
 	}
 	for i := 0; i < runs && concHangs < concMaxHangs; i++ {
 		kind := i % 2
@@ -569,24 +642,60 @@ func streamConc(seed uint64, thorough bool) {
 		concEmit(concRun(2, r, concOpts{n: 2 + r.intn(3), m: 1 + r.intn(4), nCloses: r.intn(5),
 			readTimeout: concReadTimeout, hooked: i%2 == 1}))
 	}
-	// slow device: 8 goroutines queue for the lock, 50 ms per exchange, time-outs 50 + 400 ms: the
-	// wait for the lock (up to 15 exchanges = 750 ms) is longer than write + read time-out, the
-	// exchange itself is 8 times shorter than the read time-out (margin against a loaded machine).  Every
-	// call has to succeed with its own reply.  The cases run in parallel (each on its own client and
-	// transport, with a PRNG split off the run's one PRNG), results are emitted in order.
+	// The remaining cases take long per exchange; they run in parallel (each on its own client and
+	// transport, with a PRNG split off the run's one PRNG) and are emitted in order.
+	//  - slow device: 8 goroutines queue for the lock, 50 ms per exchange, time-outs 50 + 400 ms: the
+	//    wait for the lock (up to 15 exchanges = 750 ms) is longer than write + read time-out, the
+	//    exchange itself is 8 times shorter than the read time-out.  Every call has to be served.
+	//  - slow device + callers that give up: a third of the calls carry a context of 20..80 ms and
+	//    go to the unit that never answers; they end while the caller is still queued for the client
+	//    or waits for the reply.  Everybody else has to be served, one at a time, with own replies.
+	//  - serial port whose Read really blocks (100 ms) + callers that give up mid-read (context of
+	//    40..90 ms, i.e. after the 30 ms write-to-read pause): nothing of an abandoned call may
+	//    still be going on at the port when Do has returned; everybody else is served.
 	if concHangs >= concMaxHangs {
 		return
 	}
-	results := make([]concResult, slowRuns)
-	var wg sync.WaitGroup
+	type job struct {
+		kind int
+		o    concOpts
+	}
+	var jobs []job
 	for i := 0; i < slowRuns; i++ {
+		jobs = append(jobs, job{i % 2, concOpts{n: 8, m: 2, latency: 50 * time.Millisecond,
+			readTimeout: 400 * time.Millisecond, writeTimeout: 50 * time.Millisecond}})
+	}
+	for i := 0; i < slowRuns; i++ {
+		jobs = append(jobs, job{i % 2, concOpts{n: 6, m: 3, latency: 50 * time.Millisecond,
+			readTimeout: 400 * time.Millisecond, writeTimeout: 50 * time.Millisecond,
+			abandonPct: 33, ctxLo: 20, ctxHi: 80, hooked: i%4 >= 2}})
+	}
+	for i := 0; i < slowRuns; i++ {
+		jobs = append(jobs, job{2, concOpts{n: 3, m: 3, readTimeout: concReadTimeout,
+			blockRead: 100 * time.Millisecond, abandonPct: 33, ctxLo: 40, ctxHi: 90, hooked: i%2 == 1}})
+	}
+	// known finding KF-C14-1 (the case input says: abandoned calls go to an ANSWERING unit)
+	//  - deterministic witness, every kind: one caller, call 0 abandoned after 20 ms on a device that
+	//    answers after 150 ms, 400 ms pause, call 1 of the same shape: reads call 0's reply
+	//  - the giving-up callers of above on a device where every unit answers
+	for i := 0; i < detRuns; i++ {
+		jobs = append(jobs, job{i % 3, concOpts{n: 1, m: 2, latency: 150 * time.Millisecond,
+			readTimeout: 1000 * time.Millisecond, writeTimeout: 50 * time.Millisecond, answering: true, det: true}})
+	}
+	for i := 0; i < slowRuns; i++ {
+		jobs = append(jobs, job{i % 2, concOpts{n: 6, m: 3, latency: 50 * time.Millisecond,
+			readTimeout: 400 * time.Millisecond, writeTimeout: 50 * time.Millisecond,
+			abandonPct: 33, ctxLo: 20, ctxHi: 80, answering: true}})
+	}
+	results := make([]concResult, len(jobs))
+	var wg sync.WaitGroup
+	for i, j := range jobs {
 		sub := newRng(r.next())
 		wg.Add(1)
-		go func(i int, sub *rng) {
+		go func(i int, j job, sub *rng) {
 			defer wg.Done()
-			results[i] = concRun(i%2, sub, concOpts{n: 8, m: 2, latency: 50 * time.Millisecond,
-				readTimeout: 400 * time.Millisecond, writeTimeout: 50 * time.Millisecond})
-		}(i, sub)
+			results[i] = concRun(j.kind, sub, j.o)
+		}(i, j, sub)
 	}
 	wg.Wait()
 	for _, res := range results {
